@@ -302,9 +302,9 @@ func runVer1(c *core.Ctx) {
 	schn := "github.com/btcsuite/btcd/btcec/v2/schnorr."
 	wantCall := "call:(*" + schn + "Signature).Verify(call:" + schn + "ParseSignature(" + hexDec + "recv.Sig)#0)#0," + idBin + ",call:" + schn + "ParsePubKey(" + hexDec + "recv.Pubkey)#0)#0)"
 	serPath := ""
-	an.Instrs(ver, func(in ssa.Instruction) {
-		if call, ok := in.(*ssa.Call); ok && strings.HasSuffix(an.CalleeName(&call.Call), "mocrelay.Event).Serialize") {
-			serPath = an.PathOf(call) + "#0"
+	an.Region(ver, nil, func(o an.Occ) {
+		if call, ok := o.In.(*ssa.Call); ok && strings.HasSuffix(an.CalleeName(&call.Call), "mocrelay.Event).Serialize") {
+			serPath = o.Path(call) + "#0"
 		}
 	})
 	wantEq := []string{idBin, "call:crypto/sha256.Sum256(" + serPath + ")"}
@@ -332,14 +332,15 @@ func runVer1(c *core.Ctx) {
 				}
 				break
 			}
-			call, ok := v.(*ssa.Call)
-			if !ok || !pol {
+			if !pol {
 				continue
 			}
-			if an.CalleeName(&call.Call) == "bytes.Equal" {
-				a, b := an.PathOf(call.Call.Args[0]), an.PathOf(call.Call.Args[1])
-				seen = append(seen, a+" == "+b)
-				if (a == wantEq[0] && b == wantEq[1]) || (a == wantEq[1] && b == wantEq[0]) {
+			// the comparison by its access path: written here, or the verdict of a private
+			// helper whose result is that comparison
+			vp := an.PathOf(v)
+			if strings.HasPrefix(vp, "call:bytes.Equal(") {
+				seen = append(seen, vp)
+				if vp == "call:bytes.Equal("+wantEq[0]+","+wantEq[1]+")" || vp == "call:bytes.Equal("+wantEq[1]+","+wantEq[0]+")" {
 					okEq = true
 				}
 			}
